@@ -20,6 +20,10 @@ def scenarios(rng, tier):
         out.append(fc.Scenario(h, tag, data, e, mode=rng.choice([0o644, 0o4755, 0o600]), mtime_ns=fc.NOW_NS - rng.randrange(10 ** 6), uid=rng.choice([0, 1234]), gid=5678))
     h, tag, data, e = cs[("gzip", "dirty")]
     out.append(fc.Scenario(h, tag, data, e, mode=0o6755, stale=True, uid=1234))
+    # write-protected originals: the replacement must not need (or take) a detour through removing them
+    out.append(fc.Scenario(h, tag, data, e, mode=0o555, uid=0))
+    h, tag, data, e = cs[("ar", "dirty")]
+    out.append(fc.Scenario(h, tag, data, e, mode=0o444, uid=1234))
     return out
 
 
